@@ -19,6 +19,9 @@ class Validate:
       If the content of the field is not valid, according to its required type.
     """
     fieldname = self.__class__.FIELD_ALIAS.get(fieldname, fieldname)
+    if fieldname not in self._data:
+      raise gfapy.NotFoundError(
+        "No value defined for field {}".format(fieldname))
     v = self._data[fieldname]
     t = self._field_or_default_datatype(fieldname, v)
     gfapy.Field._validate_gfa_field(v, t, fieldname)
